@@ -651,7 +651,7 @@ func (s *Sim) DeviceEvent(taskId string, typ string, extra map[string]interface{
 	}
 	msg := map[string]interface{}{
 		"_messageType": "DeviceEvent",
-		"type":         typ,
+		"type":         deviceEventTypeCode(typ),
 		"origin": map[string]interface{}{
 			"agentId":    map[string]string{"value": lt.Info.AgentID.Value},
 			"executorId": map[string]string{"value": lt.Info.Executor.ExecutorID.Value},
